@@ -2,8 +2,15 @@ from pyvc.runner import register_modules
 
 register_modules("C16", "contracts.C16_secsi", "bounded.C16_api")
 LEVEL = "proof"
+EXPLANATION = ("SecsIHeader.encode/decode bit-exact; Block.checksum (loop invariant, every data length); Block.encode/decode (decode accepts exactly consistent "
+               "length byte + right checksum, then returns header and data); single-byte corruption lemma; Message._split_blocks for bodies of up to three "
+               "blocks (every boundary length 0, 1, 243..245, 487..489, 731, 732 inside the symbolic ranges): count, partition, numbering, end bit, other "
+               "fields preserved; Protocol._add_message_block for 0..2 open transactions: joins exactly the message with its system bytes in arrival order, "
+               "returns it exactly on the end bit and forgets it, other transactions untouched (interleaving); SecsIMessage.data = concatenation of the "
+               "blocks' data, complete = end bit of the last block.  Bounded pass: all boundary lengths up to the block limit, interleavings, every corruption position.")
 ASSUMPTIONS = [
     "A-STRUCT / A-INT / A-SEQ",
     "prefix_sum is specified by PS(a,0)=0, PS(a,i)=PS(a,i-1)+a[i-1] (background axiom); the induction schema used for the update law is applied outside the solver",
-    "Message._split_blocks / Protocol._add_message_block: bounded only",
+    "Message._split_blocks, Protocol._add_message_block, SecsIMessage.data/complete: proved for bounded shapes only (bodies of up to 3 blocks; 0..2 open transactions of 1..2 blocks), "
+    "contents / lengths inside a shape / system bytes / flags symbolic; larger shapes (up to the 32767-block limit, more interleaved transactions): bounded pass",
 ]
